@@ -166,3 +166,9 @@ pub fn fb(x: f64) -> u64 {
 pub fn bf(b: u64) -> f64 {
     f64::from_bits(b)
 }
+
+/// Build/scratch directory of the framework (set by the driver; everything a check needs lives
+/// below it, nothing under /tmp).
+pub fn target_dir() -> String {
+    std::env::var("VH_TARGET").unwrap_or_else(|_| "/verif/.target".to_string())
+}
